@@ -1,2 +1,6 @@
 import PyndlModel.RW
 import PyndlModel.Kernel
+import PyndlModel.Bytes
+import PyndlModel.Ndl
+import PyndlModel.Scalar
+import PyndlModel.Generated
